@@ -41,12 +41,20 @@ How the obligations are stated (so that they do not depend on one spelling of th
                (`Path::extension` = None | Some(lit) | Some(unknown) | Some(non-UTF-8)) and observing what reaches the
                delta insert — nested `match`, a private `from_extension` helper, `map_or` + `?` in a closure, `zip`,
                `let .. else`, a lookup table are all just evaluated.  A row that cannot be evaluated is UNPROVEN.
+               A two-phase reader (phase one fills a Vec with one push per listed file, phase two inserts per element of
+               that Vec) is the same reader: a Vec created empty and mutated by nothing but push is the multiset of the
+               pushed values (H.push_only; `next()` on it = Some(pushed value) | None in the evaluator), and the
+               completeness / guard / must-insert obligations of the insert are then also demanded of the pushes
+               (H.completeness_relay, must_insert's relayed activations).  Any other in-place mutation of a vector on
+               that route (truncate, pop, retain, sort ...) makes the relay unrecognised => alarm.
+               The key of a process environment is taken from all places where the result of that per-directory read is
+               stored (the field assignment sees the private helper's returned map, the helper's inserts carry the key).
 """
 from . import layer_env_common as L
 from . import C03_helpers as H
 from .lib.effects import Effects, MUTATING, guards_of
 from .lib.paths import strip, LayerPaths
-from .lib.value import vstr, walk
+from .lib.value import vstr, walk, canon
 
 SPEC_SCOPES = {'all': ('env',), 'build': ('env.build',), 'launch': ('env.launch',), 'process[*]': ('env.launch', '<key>')}
 SPEC_SUFFIX = {'Append': '.append', 'Default': '.default', 'Delimiter': '.delim', 'Override': '.override', 'Prepend': '.prepend'}
@@ -324,7 +332,7 @@ def new_obligations(ctx, rep, prog, sl, slw, E, wd, wf, rf, weffs, nested, root)
     # ---- R6 / R1 reader ------------------------------------------------------------------------
     h = prog.fn(L.R_DIR)
     hdw = '%s:%d' % (h.file, h.line)
-    Ei = Effects(prog, sl, vocab={L.INSERT: ('INSERT', None)})
+    Ei = Effects(prog, sl, vocab={L.INSERT: ('INSERT', None), H.PUSH: ('PUSH', 0)})
     hroot = L.param_pred(h, 0)
 
     def listing_of(pred):
@@ -336,7 +344,9 @@ def new_obligations(ctx, rep, prog, sl, slw, E, wd, wf, rf, weffs, nested, root)
     if not ins:
         rep.unproven('R6', 'reader/every-file', hdw, 'no insert into the delta among the effects of the per-directory reader')
     for e in ins:
-        found, probs, unknown = H.completeness(Ei, e, listing_of(lambda a: hroot(strip(a))), allow_filter='file-type')
+        # (the insert may run in a second phase, over a Vec that the listing loop fills with one push per file: the
+        # obligations then hold for the push as well as for the insert)
+        found, probs, unknown, relays = H.completeness_relay(Ei, e, listing_of(lambda a: hroot(strip(a))), h, allow_filter='file-type')
         if probs:
             rep.violated('R6', 'reader/every-file', e.where(), 'not every file of the directory is read: ' + '; '.join(sorted(set(probs))))
         elif unknown or not found:
@@ -345,6 +355,8 @@ def new_obligations(ctx, rep, prog, sl, slw, E, wd, wf, rf, weffs, nested, root)
         else:
             rep.holds('R6', 'reader/every-file', e.where(), 'the listing of the directory is visited to exhaustion')
         cg = H.content_guards(Ei, e)
+        for pe in relays:
+            cg = cg + [c for c in H.content_guards(Ei, pe) if c not in cg]
         rep.check(not cg, 'R6', 'reader/entry-guards', e.where(), 'whether a file becomes an entry does not depend on its content',
                   'whether a file becomes an entry depends on its content (%s): a written entry with such a value does not read back' % [repr(c) for c in cg])
     # under every extension scenario that yields an entry: a listed entry that is not a directory cannot be passed over
@@ -440,9 +452,18 @@ def new_obligations(ctx, rep, prog, sl, slw, E, wd, wf, rf, weffs, nested, root)
             rep.holds('R6', 'reader/every-process-dir', e.where(), 'the listing of env.launch is visited to exhaustion')
     if nested and not listed:
         rep.unproven('R6', 'reader/every-process-dir', '%s:%d' % (rf.file, rf.line), 'no per-directory read of a listed entry of env.launch found')
-    for sc, f, bb, pv, kvs in H.LISTED_KEYS:
+    # the keys under which the result of one per-directory read (one call site, one listed entry) is stored: the read may
+    # be seen both as the value assigned to the field (through the private helper that returns the filled map: no key at
+    # that level) and at the helper's own inserts (with the key) — the obligation is on the union of the keys of that read
+    groups = {}
+    for sc, f, bb, pv, kvs, site in H.LISTED_KEYS:
+        g = groups.setdefault((sc, site, canon(pv)), [f, pv, []])
+        for k in kvs:
+            if k is not None and not any(canon(k) == canon(o) for o in g[2]):
+                g[2].append(k)
+    for (sc, site, _), (f, pv, kvs) in groups.items():
         where = '%s:%d' % (f.file, f.line)
-        ks = [k[1][0] if (k is not None and k[0] == 'tuple' and len(k[1]) == 2) else k for k in kvs if k is not None]
+        ks = [k[1][0] if (k[0] == 'tuple' and len(k[1]) == 2) else k for k in kvs]
         if not ks:
             rep.unproven('R1', 'reader/process-key', where, 'key under which a listed process directory is stored is not recognised')
             continue
